@@ -86,8 +86,11 @@ def run_die(c):
     elif ref and ref[0] == "grid" and not c["regions"] and not c["fixed"]:
         die.initial_grid(int(ref[1]), int(ref[2]))
     before = die_state(die)
+    fail_between = (c["W"] + c["H"]) % 2 == 0
     try:
         t1 = die.write_yaml()
+        if fail_between:
+            failed_productions()
         t2 = die.write_yaml()
     except Exception as e:
         raise Violation("Die.write_yaml raised %s: %s" % (type(e).__name__, e), "write-raised")
@@ -108,7 +111,7 @@ def run_die(c):
         if abs(ga - gb) > W * H / 10 ** 9 or not X.same_union([snap(X.of_frame(r), c) for r in d2.ground_regions],
                                                                    [snap(X.of_frame(r), c) for r in die.ground_regions]):
             raise Violation("die written as\n%s\nreads back with ground area %s instead of %s" % (t1, float(ga), float(gb)), "content-differs")
-    cls = []
+    cls = ["failed-productions-in-between"] if fail_between else []
     if ref:
         cls.append("refined-" + ref[0])
     if c["fixed"]:
@@ -143,17 +146,45 @@ def alloc_state(al):
             for a in al.allocations]
 
 
-def check_alloc_roundtrip(al, what):
+def failed_productions():
+    """Productions that fail (or not - either is fine): objects holding values the dumper cannot represent, and a file that cannot be
+    created.  What is produced AFTERWARDS must not be affected (checked by the caller: the next document equals the previous one)."""
+    import numpy as np
+    from frame.geometry.geometry import Point, Rectangle, Shape
+    out = []
+    for what, f in (
+            ("allocation with numpy ratios", lambda: Allocation([(Rectangle(center=Point(1.0, 1.0), shape=Shape(2.0, 2.0)), {"Q": np.float64(0.5)}, 0)]).write_yaml()),
+            ("die written into a missing directory", lambda: Die("3x2").write_yaml("/nonexistent-directory-of-the-checks/die.yaml")),
+            ("netlist with numpy rectangles", lambda: _numpy_netlist().write_yaml())):
+        try:
+            f()
+            out.append(what + ": written")
+        except Exception as e:
+            out.append(what + ": " + type(e).__name__)
+    return out
+
+
+def _numpy_netlist():
+    import numpy as np
+    n = Netlist({"Modules": {"Z": {"area": 1.0, "center": [1.0, 1.0]}}, "Nets": []})
+    n.assign_rectangles({"Z": [[np.float64(1.0), np.float64(1.0), np.float64(1.0), np.float64(1.0)]]})
+    return n
+
+
+def check_alloc_roundtrip(al, what, fail_between=False):
     before = alloc_state(al)
     try:
         t1 = al.write_yaml()
+        if fail_between:
+            failed_productions()
         t2 = al.write_yaml()
     except Exception as e:
         raise Violation("%s: Allocation.write_yaml raised %s: %s" % (what, type(e).__name__, e), "write-raised")
     if alloc_state(al) != before:
         raise Violation("%s: Allocation.write_yaml altered the allocation" % what, "producer-mutates")
     if t1 != t2:
-        raise Violation("%s: writing twice gives different documents" % what, "not-repeatable")
+        raise Violation("%s: writing twice%s gives different documents:\n%r\n---\n%r" % (
+            what, " (with failed productions of other objects in between)" if fail_between else "", t1[:300], t2[:300]), "not-repeatable")
     for al2 in read_both(t1, Allocation, what + ": Allocation.write_yaml"):
         after = alloc_state(al2)
         if after != before:
@@ -195,7 +226,10 @@ def run_alloc(c):
         except Exception:
             return dict(nt=False, cls=["initial-allocation-not-built"])  # C03's business
         n = len(al.allocations)
-    check_alloc_roundtrip(al, src)
+    fail_between = n % 2 == 0
+    check_alloc_roundtrip(al, src, fail_between)
+    if fail_between:
+        cls.append("failed-productions-in-between")
     if any(a.depth > 0 for a in al.allocations):
         cls.append("depth>0")
     if any(a.rect.region != "_" for a in al.allocations):
@@ -663,9 +697,9 @@ def legal_s(draw):
 
 def subchecks():
     return [
-        Sub("die", run_die, strategy=die_s(), n_quick=1500, n_thorough=30000, required=("refined-split", "with-fixed", "specialised")),
+        Sub("die", run_die, strategy=die_s(), n_quick=1500, n_thorough=30000, required=("refined-split", "with-fixed", "specialised", "failed-productions-in-between")),
         Sub("alloc", run_alloc, strategy=alloc_s(), n_quick=1500, n_thorough=30000,
-            required=("generated", "initial", "after-refine", "after-griddify", "depth>0", "cell-in-region")),
+            required=("generated", "initial", "after-refine", "after-griddify", "depth>0", "cell-in-region", "failed-productions-in-between")),
         Sub("netgen", run_netgen, enum=netgen_cases, exhaustive=True, desc="every listed topology at every listed size through netgen.main"),
         Sub("floorset", run_floorset, strategy=floorset_s(), n_quick=1200, n_thorough=25000,
             required=("tam", "terminals", "density", "pin-not-on-lower-left", "polygonal-block", "preplaced-and-fixed-shape")),
